@@ -5,11 +5,11 @@
 (*   DOC  one line per rendering: value key, tokens, hash events (M), undetected flag      *)
 (*   COR  one line per corrupted rendering                                                 *)
 EXTENDS ReconCompare, Json, SequencesExt
-DumpVal == (st = None) => PrintT(<<"VAL", ToJson([key |-> ValueKey(v), nf |-> NormalForm(v), sv |-> SetToSeq(ShiftForms(v)), sk |-> Skeleton(v), gen |-> gen])>>)
+DumpVal == (st = None) => PrintT(<<"VAL", ToJson([key |-> ValueKey(v), nf |-> NormalForm(v), sv |-> SetToSeq(ShiftForms(v)), sk |-> Skeleton(v), gen |-> gen, ctx |-> ContextOf(v)])>>)
 DumpDoc == (st # None /\ cor = "none") =>
              LET re == RE(v, st, <<>>) IN
              PrintT(<<"DOC", ToJson([key |-> ValueKey(v), toks |-> re.toks, hev |-> re.ev,
-                                     undet |-> re.und, dflt |-> (st = Default), nlmix |-> (st = NLMix)])>>)
+                                     undet |-> re.und, dflt |-> (st = Default), nlmix |-> (st = NLMix), nmv |-> (st \in NmStyles)])>>)
 DumpCor == (cor # "none") => PrintT(<<"COR", ToJson([key |-> ValueKey(v), toks |-> Render(v, st), cor |-> cor])>>)
 EdgeDump == (gen = 0 /\ gen' = 1) => PrintT(<<"EDGE", ToJson([s |-> ValueKey(v), t |-> ValueKey(v')])>>)
 =============================================================================
